@@ -85,6 +85,7 @@ RULES = [
  ('newer text file of the other kind may be what it was made from', 'C03', 'file-written-by-to_file-holds-an-older-model/pkl (to_file(pkl+yml); set_value; to_file(pkl+json); set_value back; to_file(pkl+yml): the pickle still held the json state)'),
  ('drop the numpy import which the repair of floats', 'C03', 'resave-content-differs (follow-up of 0705fed: unused import)'),
  ('whole column reference onto the range of an array formula can be saved and loaded', 'C03', 'load-raises/same/{yml,json} + save-raises/pkl (=SUM(C:C) over the target of {=A1:A3*2}: AssertionError, the range was built twice)'),
+ ('empty element of an array formula shows as 0 in the range', 'C05', 'array-formula-range-shows-blank-where-its-cell-shows-0 ({=A1:A3} with A2 empty: the cell D2 gave 0, the element of D1:D3 gave None)'),
  ('an array and an error value', 'C13', 'array-formula-member-not-pointwise/array-with-error-valued-scalar'),
 ]
 
